@@ -681,8 +681,10 @@ func (s *Server) SendConnack(cl *Client, reason packets.Code, present bool, prop
 	if cl.Properties.Props.SessionExpiryInterval > s.Options.Capabilities.MaximumSessionExpiryInterval {
 		properties.SessionExpiryInterval = s.Options.Capabilities.MaximumSessionExpiryInterval
 		properties.SessionExpiryIntervalFlag = true
+		cl.Lock()
 		cl.Properties.Props.SessionExpiryInterval = properties.SessionExpiryInterval
 		cl.Properties.Props.SessionExpiryIntervalFlag = true
+		cl.Unlock()
 	}
 
 	ack := packets.Packet{
@@ -1468,8 +1470,10 @@ func (s *Server) processDisconnect(cl *Client, pk packets.Packet) error {
 			return packets.ErrProtocolViolationZeroNonZeroExpiry
 		}
 
+		cl.Lock()
 		cl.Properties.Props.SessionExpiryInterval = pk.Properties.SessionExpiryInterval
 		cl.Properties.Props.SessionExpiryIntervalFlag = true
+		cl.Unlock()
 	}
 
 	if pk.ReasonCode == packets.CodeDisconnectWillMessage.Code { // [MQTT-3.1.2.5] Non-normative comment
@@ -1802,10 +1806,12 @@ func (s *Server) clearExpiredClients(dt int64) {
 		}
 
 		expire := s.Options.Capabilities.MaximumSessionExpiryInterval
+		client.RLock() // a DISCONNECT being processed may be changing the interval
 		if client.Properties.ProtocolVersion == 5 && client.Properties.Props.SessionExpiryIntervalFlag &&
 			client.Properties.Props.SessionExpiryInterval < expire { // the server maximum caps the client's interval
 			expire = client.Properties.Props.SessionExpiryInterval
 		}
+		client.RUnlock()
 
 		if disconnected+int64(expire) < dt {
 			s.hooks.OnClientExpired(client)
